@@ -78,6 +78,43 @@ C("C11", "exploration",
   "point in the box, evaluations <= cap, returned step in (0, max feasible] and strictly downhill among the logged trials.",
   TB, "boundary recorder + postcondition monitor on direct calls", "5 C11")
 
+C("C12", "exploration",
+  "The ordered list of points at which the objective is evaluated by the port is compared with SciPy's L-BFGS-B (Algorithm 778) on "
+  "unconstrained problems, relative 1e-6, until a documented deviation (detected from the port's intercepted line searches) fires; "
+  "boundary-probing quartics flip an accept/reject decision when a line-search constant changes; the constants handed to the inner "
+  "routines are read at the interception points; convex box problems are compared on the final value.",
+  TB + " Reference = the SciPy build of the image; differences below 1e-6 over 12 iterations are invisible.",
+  "differential trace monitor against a reference implementation", "5 C12")
+C("C13", "exploration",
+  "Identity update functions must leave result, callback states and the evaluation log bit-identical; objective switches (rescaling, "
+  "regularisation weight, indefinite perturbations) at every update call index are followed by monitors on every later state (pairs are "
+  "bit-exact differences of the rewritten gradients with curvature, newest point retained at the rewrite) and by a restart-equivalence check.",
+  TB, "metamorphic + reference-chain monitor over recorded states", "5 C13")
+C("C14", "exploration",
+  "Every result is compared bit-for-bit with a solo baseline computed in a fresh interpreter: repeated and interleaved calls, two restarts "
+  "from one checkpoint, read-only (frozen) inputs with fingerprints, all iprint x logger combinations, ALL interleavings of the objective "
+  "calls of two short runs on two threads under a deterministic baton scheduler, seeded preemption at LINE events inside the lbfgsb "
+  "modules (sys.monitoring), nested runs inside the objective.",
+  TB + " One runnable thread at a time (interleavings, not parallelism).", "deterministic scheduler + write barriers + fresh-process differential", "5 C14")
+C("C16", "exploration",
+  "Bounded problems with active bounds (degenerate sides included) are solved in the four finite-difference modes and with the exact "
+  "gradient: no exception, every stencil point inside the box exactly, nfev == objective calls, convex optimum values agree to 1e-6.",
+  TB, "boundary recorder + differential monitor FD vs exact gradient", "5 C16")
+C("C17", "exploration",
+  "Pairs of runs (scaler s vs explicitly scaled objective): evaluation logs, every callback state and the result bit-identical; scaler "
+  "invoked once with (clipped x0, unscaled gradient, bounds); target stop judged on the unscaled value; packaged scaler gives unit projected gradient.",
+  TB + " Callable gradients only (finite differences of s*f are not bitwise s times those of f).", "metamorphic differential monitor over pairs of runs", "5 C17")
+C("C18", "exploration",
+  "For every callback state and result of generated runs (rejected updates, failed line searches, scaler, restarts with kept or reduced "
+  "maxcor): #pairs <= maxcor, a chain of visited iterates reproduces sk/yk bit for bit, inherited pairs match the checkpoint to rounding, "
+  "s.y > 0, dense operator SPD; extract_hess_inv_diag vs an independent dense recursion on synthetic pair sets.",
+  TB, "chain-reconstruction monitor over recorded iterates + dense reference", "5 C18")
+C("C20", "fault_enumeration",
+  "For every call index of every user callable (objective, gradient, callback, update function, scaler, callable ftarget/gtol) of each explored "
+  "run, one run is made in which exactly that call raises a prepared exception object (11-type alphabet): the caught exception must be that "
+  "object, no result may be returned, and a clean re-run must reproduce the fresh-interpreter digest.",
+  TB + " One open known finding (StopIteration absorbed by SciPy's stencil map()).", "exhaustive fault injection over call indices with identity oracle", "5 C20")
+
 ALL = [f"C{i:02d}" for i in range(1, 21)]
 
 
@@ -116,7 +153,7 @@ def main():
                               "models, fault injection, deterministic thread scheduler; sharded over 16 worker subprocesses",
         }],
         "checks": checks,
-        "not_applicable": [{"property_id": p, "reason": "check not built yet in this revision (work in progress; runtime monitoring applies)"}
+        "not_applicable": [{"property_id": p, "reason": "check not built in this revision (runtime monitoring applies; see DESIGN.md)"}
                            for p in ALL if p not in claimed],
         "notes": "All checks: ./check <id> --tier quick|thorough; exit 0 held, 1 VIOLATION, 2 INCONCLUSIVE (monitor floor not reached / watchdog). "
                  "VERIF_REPO selects the tree (default /repo); VERIF_SEED seeds every random choice.",
